@@ -9,7 +9,7 @@ HOOK_COMMITS = ["a1e4d44"]
 NOT_APPLICABLE = {}
 
 # properties whose check has been reviewed and verified on the unchanged tree; only these go into MANIFEST.json
-CLAIMED = ["C01", "C02", "C03", "C04", "C05", "C06", "C07", "C08", "C09", "C11", "C12", "C13", "C14", "C15", "C16", "C18", "C19", "C20"]
+CLAIMED = ["C01", "C02", "C03", "C04", "C05", "C06", "C07", "C08", "C09", "C11", "C12", "C13", "C14", "C15", "C16", "C17", "C18", "C19", "C20"]
 
 CHECKS = {
     "C13": dict(
